@@ -6,6 +6,10 @@ V = os.path.dirname(os.path.dirname(os.path.abspath(__file__)))
 EMIR = "symbolic execution of rustc MIR into z3 bit-vector formulas (mirsym), solver verdict over all inputs within the stated bound, cross-checked on z3 4.8.12 and cvc5, counterexamples replayed natively"
 
 checks = {
+ "C04": dict(cat="model_checking",
+   text="Label scoping pass: src/alpha/scoper/label_references.rs (Analyzable for FunctionBody/Block/Statement, declare_label, use_label, push_scope, pop_scope) is symbolically executed from MIR on a symbolic function body - statement trees of depth <= 3 with up to 2 (thorough 3) statements per body/block, symbolic lengths and symbolic label names - and z3 decides that the output tree is what the rule prescribes node by node: a goto resolves iff a label of that name is later in the same block or later in an enclosing block (E400 otherwise: backward jumps, jumps into nested or sibling blocks, missing labels), a label clashing with such a later label is E420, nothing else changes, and the scope stack is balanced.",
+   note="Bounded by depth and width; one function body. Inputs restricted to bodies whose if-branches are goto/block (else also if) without poisoned statements. Trusted: MIR dump, mirsym + models (owned reversed Vec iteration, nested Vec as label stack, slice::Iter::find, String equality on opaque tokens); encoding validated natively (guarded hook) on random bodies every run.",
+   ref="DESIGN.md section 3, C04"),
  "C06": dict(cat="model_checking",
    text="Placement rules of the syntax pass: src/alpha/analyzer/syntax.rs (Analyzable for FunctionBody, Block, Statement and their closures) is symbolically executed from MIR on a symbolic function body - statement trees of nesting depth <= 4 (thorough 5) with up to 2 (3) statements per body/block and symbolic lengths, all nine statement kinds, every if/else shape - and z3 decides that the output tree equals what the documented rules prescribe node by node: loop only as final statement of a braced block (E800 elsewhere in a block, E801 in a function body), if-branches goto or braced block, else also another if (E840), nothing else changes; the pass never panics.",
    note="Bounded by nesting depth and block width. Outside: the L1800 lint and the generator's assumption. Trusted: MIR dump, mirsym + models for owned Vec iteration (into_iter/map/collect, pop, push), Box, Option::map; the encoding is validated natively (guarded hook) on random statement trees every run.",
@@ -47,7 +51,6 @@ na = {
  "C01":"observable is stdout/exit status of lli running IR built through ~100 LLVM-C FFI calls; no solver-reachable encoding of LLVM's semantics exists in this image",
  "C02":"quantifies over the whole first-generation pipeline plus an aborting LLVM verifier; the encodable slice (second-generation lexer totality) is claimed under C15",
  "C03":"the code under test is LLVM's own assembler/verifier/linker behind FFI",
- "C04":"label scoping walks a recursive heap AST through Vec/iterator/collect chains; out of reach for Kani (measured) and not yet modelled in the MIR executor",
  "C05":"as C04 plus HashMap/HashSet state and the full expression AST",
  "C10":"both evaluators (constant folder and interpreter) are LLVM",
  "C16":"the recursive-descent parser explodes in CBMC as soon as one token is symbolic (measured); not yet attempted with the MIR executor",
@@ -63,7 +66,7 @@ m = {
  "setup_cmd": "./setup.sh",
  "hooks": {"guard": "cargo features verif / verif_small_buffers",
            "enable": "--features verif_small_buffers (Kani harness crates); the MIR-based checks use the unhooked crate",
-           "baseline_off_cmd": "python3 /verif/lib/baseline.py", "source_commits": ["ecc0424", "2ff211b", "4dd7126", "cb3acb4", "32a0e2f", "e7be6da"], "add_only": True},
+           "baseline_off_cmd": "python3 /verif/lib/baseline.py", "source_commits": ["ecc0424", "2ff211b", "4dd7126", "cb3acb4", "32a0e2f", "e7be6da", "35f1c84"], "add_only": True},
  "engines": [
   {"name": "E-MIR", "path": "mir/", "serves_properties": sorted(checks),
    "kind_free_text": "bounded symbolic execution of rustc MIR (nightly -Zunpretty=mir of /repo's working tree) into z3 bit-vector terms; verdicts cross-checked on z3 4.8.12 and cvc5; translation validated natively through replay/"},
